@@ -155,11 +155,11 @@ Definition t_count2 := Eval vm_compute in b ") / ".
 Definition t_count3 := Eval vm_compute in b "));".
 Definition t_plus := Eval vm_compute in b " + ".
 Definition t_times := Eval vm_compute in b " * ".
-Definition k_var := Eval vm_compute in b "__var".
+Definition jk_var := Eval vm_compute in b "__var".
 Definition n_changeNewlineToBr := Eval vm_compute in b "changeNewlineToBr".
 Definition n_insertWordBreaks := Eval vm_compute in b "insertWordBreaks".
-Definition k_limit := Eval vm_compute in b "__limit".
-Definition k_index := Eval vm_compute in b "__index".
+Definition jk_limit := Eval vm_compute in b "__limit".
+Definition jk_index := Eval vm_compute in b "__index".
 Definition n_ij := Eval vm_compute in b "ij".
 Definition n_id := Eval vm_compute in b "id".
 Definition n_noAutoescape := Eval vm_compute in b "noAutoescape".
@@ -277,12 +277,12 @@ Definition set_infile (l : list bstr) (st : jstate) : jstate :=
 Definition jmod (f : jstate -> jstate) : J unit := fun st => Ok (tt, f st).
 
 (* ---- writing ---- *)
-Definition emit (cs : list chunk) : J unit := jmod (upd_out (fun o => rev_append cs o)).
-Definition txt (t : bstr) : J unit := emit [CText t].
+Definition jemit (cs : list chunk) : J unit := jmod (upd_out (fun o => rev_append cs o)).
+Definition jtxt (t : bstr) : J unit := jemit [CText t].
 Fixpoint indent_text (n : nat) : bstr := match n with O => [] | S k => t_ind ++ indent_text k end.
-Definition jindent : J unit := st <~ jget ;; txt (indent_text (j_indent st)).
+Definition jindent : J unit := st <~ jget ;; jtxt (indent_text (j_indent st)).
 (* jsln(args...) where the args are already chunks *)
-Definition jsln (cs : list chunk) : J unit := jindent ;;; emit cs ;;; txt t_nl.
+Definition jsln (cs : list chunk) : J unit := jindent ;;; jemit cs ;;; jtxt t_nl.
 Definition indent_inc : J unit := jmod (fun st => set_indent (S (j_indent st)) st).
 Definition indent_dec : J unit := jmod (fun st => set_indent (pred (j_indent st)) st).
 Definition bufname : J (list chunk) := st <~ jget ;; jret [CName (j_buf st)].
@@ -327,13 +327,13 @@ Definition jsc_push_for_range (v : bstr) : J (bstr * bstr * bstr * bstr * bstr) 
   st <~ jget ;;
   let n := j_n st + 1 in
   let d := dec_of_N n in
-  let f := aset (aset (aset (aset [] v (v ++ d)) k_var v) k_limit (v ++ t_limit ++ d)) k_index (v ++ t_index ++ d) in
+  let f := aset (aset (aset (aset [] v (v ++ d)) jk_var v) jk_limit (v ++ t_limit ++ d)) jk_index (v ++ t_index ++ d) in
   jmod (set_scope (f :: j_scope st) n) ;;; jret (v ++ d, v ++ t_init ++ d, v ++ t_step ++ d, v ++ t_limit ++ d, v ++ t_index ++ d).
 Definition jsc_push_for_each (v : bstr) : J (bstr * bstr * bstr * bstr) :=
   st <~ jget ;;
   let n := j_n st + 1 in
   let d := dec_of_N n in
-  let f := aset (aset (aset (aset [] v (v ++ d)) k_var v) k_limit (v ++ t_limit ++ d)) k_index (v ++ t_index ++ d) in
+  let f := aset (aset (aset (aset [] v (v ++ d)) jk_var v) jk_limit (v ++ t_limit ++ d)) jk_index (v ++ t_index ++ d) in
   jmod (set_scope (f :: j_scope st) n) ;;; jret (v ++ d, v ++ t_list ++ d, v ++ t_limit ++ d, v ++ t_index ++ d).
 (* scope.loop: index and limit of the innermost loop whose variable is v *)
 Fixpoint jsc_loop (s : list (list (bstr * bstr))) (v : bstr) : bstr * bstr :=
@@ -341,8 +341,8 @@ Fixpoint jsc_loop (s : list (list (bstr * bstr))) (v : bstr) : bstr * bstr :=
   | [] => ([], [])
   | f :: r =>
       let get k := match assoc_s k f with Some x => x | None => [] end in
-      if bstr_eqb (get k_var) v && negb (match get k_index with [] => true | _ => false end)
-      then (get k_index, get k_limit) else jsc_loop r v
+      if bstr_eqb (get jk_var) v && negb (match get jk_index with [] => true | _ => false end)
+      then (get jk_index, get jk_limit) else jsc_loop r v
   end.
 
 (* ---- small helpers ---- *)
@@ -419,7 +419,7 @@ Fixpoint find_dot (s : bstr) (i : nat) : option nat :=
 Definition has_dot (s : bstr) : bool := match find_dot s 0 with Some _ => true | None => false end.
 
 (* MsgNode.Placeholder: breadth-first over the children; a placeholder is never descended into *)
-Fixpoint find_placeholder (fuel : nat) (q : list node) (name : bstr) : outcome (option node) :=
+Fixpoint jfind_placeholder (fuel : nat) (q : list node) (name : bstr) : outcome (option node) :=
   match fuel with
   | O => OutOfFuel
   | S f =>
@@ -427,19 +427,19 @@ Fixpoint find_placeholder (fuel : nat) (q : list node) (name : bstr) : outcome (
       | [] => Ok None
       | x :: r =>
           match x with
-          | NMsgPlaceholder _ nm body => if bstr_eqb nm name then Ok (Some body) else find_placeholder f r name
-          | NMsgPlural p _ v cases dflt => find_placeholder f (r ++ cases ++ [NList p dflt]) name
-          | NMsgPluralCase p _ body => find_placeholder f (r ++ [NList p body]) name
-          | NList _ l => find_placeholder f (r ++ l) name
-          | _ => find_placeholder f r name
+          | NMsgPlaceholder _ nm body => if bstr_eqb nm name then Ok (Some body) else jfind_placeholder f r name
+          | NMsgPlural p _ v cases dflt => jfind_placeholder f (r ++ cases ++ [NList p dflt]) name
+          | NMsgPluralCase p _ body => jfind_placeholder f (r ++ [NList p body]) name
+          | NList _ l => jfind_placeholder f (r ++ l) name
+          | _ => jfind_placeholder f r name
           end
       end
   end.
-Fixpoint find_plural (body : list node) (var : bstr) : option node :=
+Fixpoint jfind_plural (body : list node) (var : bstr) : option node :=
   match body with
   | [] => None
-  | (NMsgPlural _ vn _ _ _ as x) :: r => if bstr_eqb vn var then Some x else find_plural r var
-  | _ :: r => find_plural r var
+  | (NMsgPlural _ vn _ _ _ as x) :: r => if bstr_eqb vn var then Some x else jfind_plural r var
+  | _ :: r => jfind_plural r var
   end.
 Fixpoint nmsg_size (n : node) : nat :=
   match n with
@@ -477,30 +477,30 @@ Definition jblock (n : node) : J (list chunk) :=
              end.
 
 Definition write_raw_text (t : bstr) : J unit :=
-  jindent ;;; bn <~ bufname ;; emit (bn ++ [CText t_pluseq; CStrLit 39 t; CText t_semi_nl]).
+  jindent ;;; bn <~ bufname ;; jemit (bn ++ [CText t_pluseq; CStrLit 39 t; CText t_semi_nl]).
 
 Fixpoint list_items (first : bool) (l : list node) : J unit :=
   match l with
   | [] => jret tt
-  | x :: r => (if first then jret tt else txt t_comma) ;;; w x ;;; list_items false r
+  | x :: r => (if first then jret tt else jtxt t_comma) ;;; w x ;;; list_items false r
   end.
 (* REPAIR C14-mapkeys: the key is written between double quotes through
    template.JSEscape (the pinned tree writes it raw) *)
 Fixpoint map_items (first : bool) (l : list (bstr * node)) : J unit :=
   match l with
   | [] => jret tt
-  | (k, x) :: r => (if first then jret tt else txt t_comma) ;;; emit [CStrLit 34 k; CText t_colon] ;;; w x ;;; map_items false r
+  | (k, x) :: r => (if first then jret tt else jtxt t_comma) ;;; jemit [CStrLit 34 k; CText t_colon] ;;; w x ;;; map_items false r
   end.
 
 (* s.op *)
 Definition jop (sym : bstr) (a c : node) : J unit :=
-  txt t_op_open ;;; w a ;;; emit [CText t_op_mid1; CText sym; CText t_op_mid2] ;;; w c ;;; txt t_op_close.
+  jtxt t_op_open ;;; w a ;;; jemit [CText t_op_mid1; CText sym; CText t_op_mid2] ;;; w c ;;; jtxt t_op_close.
 
 (* Func.Apply on a translated shape *)
 Fixpoint apply_pieces (ps : list (bstr + nat)) (args : list node) : J unit :=
   match ps with
   | [] => jret tt
-  | inl t :: r => txt t ;;; apply_pieces r args
+  | inl t :: r => jtxt t ;;; apply_pieces r args
   | inr i :: r => match nth_error args i with
                   | Some a => w a ;;; apply_pieces r args
                   | None => jfail je_args            (* args[i]: index out of range, recovered by errRecover *)
@@ -513,7 +513,7 @@ Fixpoint pick_alt (alts : list (option nat * list (bstr + nat))) (n : nat) : opt
   | (Some k, ps) :: r => if Nat.eqb k n then Some ps else pick_alt r n
   end.
 Definition builtin_call (name : bstr) (args : list node) : J unit :=
-  emit [CText (t_soy_dd ++ name ++ t_lpar)] ;;; list_items true args ;;; txt t_rpar.
+  jemit [CText (t_soy_dd ++ name ++ t_lpar)] ;;; list_items true args ;;; jtxt t_rpar.
 
 (* the loop a loop function talks about: that of its argument, a plain variable *)
 Definition loop_var_of (args : list node) : bstr :=
@@ -543,9 +543,9 @@ Definition visit_function (name : bstr) (args : list node) : J unit :=
             match ix with
             | [] => jfail je_noloop
             | _ =>
-                if bstr_eqb name jn_isFirst then emit [CText t_lpar; CName ix; CText t_eq0]
-                else if bstr_eqb name jn_isLast then emit [CText t_lpar; CName ix; CText t_eqeq; CName lim; CText t_minus1]
-                else emit [CName ix]
+                if bstr_eqb name jn_isFirst then jemit [CText t_lpar; CName ix; CText t_eq0]
+                else if bstr_eqb name jn_isLast then jemit [CText t_lpar; CName ix; CText t_eqeq; CName lim; CText t_minus1]
+                else jemit [CName ix]
             end
           else jfail je_function
       end
@@ -559,7 +559,7 @@ Fixpoint jdataref_access (acc : list node) (expr closers : list chunk) : J (list
   | [] => jret (expr ++ closers)
   | a :: rest =>
       let prefix (ns : bool) : J (list chunk) :=
-        if ns then emit ([CText t_op_open] ++ expr ++ [CText t_nullsafe]) ;;; jret (CText t_rpar :: closers) else jret closers in
+        if ns then jemit ([CText t_op_open] ++ expr ++ [CText t_nullsafe]) ;;; jret (CText t_rpar :: closers) else jret closers in
       match a with
       | NAccIndex _ ns i =>
           cl <~ prefix ns ;;
@@ -582,7 +582,7 @@ Definition visit_dataref (key : bstr) (acc : list node) : J unit :=
                 | _ => jret [CName g]
                 end) ;;
   expr <~ jdataref_access acc base [] ;;
-  emit expr.
+  jemit expr.
 
 (* visitPrint *)
 Fixpoint print_scan (dirs : list node) (escape : N) (kept : list (bstr * list node)) : J (N * list (bstr * list node)) :=
@@ -606,30 +606,30 @@ Definition directive_js (name : bstr) : bstr := match assoc_s name js_directives
 Fixpoint print_opens (rev_dirs : list (bstr * list node)) : J unit :=
   match rev_dirs with
   | [] => jret tt
-  | (name, _) :: r => emit [CText (directive_js name); CText t_lpar] ;;; print_opens r
+  | (name, _) :: r => jemit [CText (directive_js name); CText t_lpar] ;;; print_opens r
   end.
 Fixpoint print_args (args : list node) : J unit :=
   match args with
   | [] => jret tt
-  | a :: r => txt t_comma ;;; w a ;;; print_args r
+  | a :: r => jtxt t_comma ;;; w a ;;; print_args r
   end.
 Fixpoint print_closes (dirs : list (bstr * list node)) : J unit :=
   match dirs with
   | [] => jret tt
   | (name, args) :: r =>
       print_args args ;;;
-      (if bstr_eqb name n_truncate && Nat.eqb (length args) 1 then txt t_truncate_true else jret tt) ;;;
-      txt t_rpar ;;; print_closes r
+      (if bstr_eqb name n_truncate && Nat.eqb (length args) 1 then jtxt t_truncate_true else jret tt) ;;;
+      jtxt t_rpar ;;; print_closes r
   end.
 Definition visit_print (arg : node) (dirs : list node) : J unit :=
   st <~ jget ;;
   '(escape, kept) <~ print_scan dirs (j_auto st) [] ;;
   let kept' := if escape =? 2 then kept else kept ++ [(n_escapeHtml, [])] in
-  jindent ;;; bn <~ bufname ;; emit (bn ++ [CText t_pluseq]) ;;;
+  jindent ;;; bn <~ bufname ;; jemit (bn ++ [CText t_pluseq]) ;;;
   print_opens (rev kept') ;;;
   w arg ;;;
   print_closes kept' ;;;
-  txt t_semi_nl.
+  jtxt t_semi_nl.
 
 (* visitCall *)
 Fixpoint jcall_params (first : bool) (ps : list node) (acc : list chunk) : J (list chunk) :=
@@ -671,12 +671,12 @@ Fixpoint jif_conds (first : bool) (cs : list node) : J unit :=
   match cs with
   | [] => jret tt
   | NIfCond _ cond body :: r =>
-      (if first then jret tt else txt t_else) ;;;
+      (if first then jret tt else jtxt t_else) ;;;
       match cond with
-      | Some c => txt t_if_open ;;; w c ;;; txt t_op_mid1
+      | Some c => jtxt t_if_open ;;; w c ;;; jtxt t_op_mid1
       | None => jret tt
       end ;;;
-      txt t_brace_nl ;;; indent_inc ;;; w body ;;; indent_dec ;;; jindent ;;; txt t_rbrace ;;;
+      jtxt t_brace_nl ;;; indent_inc ;;; w body ;;; indent_dec ;;; jindent ;;; jtxt t_rbrace ;;;
       jif_conds false r
   | _ :: _ => fun _ => OutOfModel                 (* Conds is a []*IfCondNode *)
   end.
@@ -733,7 +733,7 @@ Definition visit_foreach (var : bstr) (lst body : node) (ifempty : option node) 
 Fixpoint case_values (vs : list node) : J unit :=
   match vs with
   | [] => jret tt
-  | v :: r => jindent ;;; txt t_case ;;; w v ;;; emit [CText t_colon; CText t_nl] ;;; case_values r
+  | v :: r => jindent ;;; jtxt t_case ;;; w v ;;; jemit [CText t_colon; CText t_nl] ;;; case_values r
   end.
 Fixpoint jswitch_cases (cs : list node) : J unit :=
   match cs with
@@ -747,15 +747,15 @@ Fixpoint jswitch_cases (cs : list node) : J unit :=
   end.
 
 (* visitMsgNode / walkPlural (no bundle, or the message is not in the bundle) *)
-Definition plural_case_body (msg_children : list node -> J unit) (c : node) : J unit :=
+Definition plural_case_body (jmsg_children : list node -> J unit) (c : node) : J unit :=
   match c with
   | NMsgPluralCase _ v body =>
-      jsln [CText t_case; CNum (dec_of_Z v); CText t_colon] ;;; indent_inc ;;; msg_children body ;;;
+      jsln [CText t_case; CNum (dec_of_Z v); CText t_colon] ;;; indent_inc ;;; jmsg_children body ;;;
       jsln [CText t_break] ;;; indent_dec
   | _ => fun _ => OutOfModel                      (* Cases is a []*MsgPluralCaseNode *)
   end.
 (* the children lists nest through NMsgPlural: recursion on the fuel *)
-Fixpoint msg_children (fuel : nat) (l : list node) : J unit :=
+Fixpoint jmsg_children (fuel : nat) (l : list node) : J unit :=
   match fuel with
   | O => fun _ => OutOfFuel
   | S f =>
@@ -766,35 +766,35 @@ Fixpoint msg_children (fuel : nat) (l : list node) : J unit :=
           | NRawText _ _ => w x
           | NMsgPlaceholder _ _ body => w body
           | NMsgPlural _ _ v cases dflt =>
-              jindent ;;; txt t_switch_open ;;; w v ;;; emit [CText t_for_close; CText t_nl] ;;;
+              jindent ;;; jtxt t_switch_open ;;; w v ;;; jemit [CText t_for_close; CText t_nl] ;;;
               indent_inc ;;;
               (fix go (cs : list node) : J unit :=
                  match cs with
                  | [] => jret tt
-                 | c :: cr => plural_case_body (msg_children f) c ;;; go cr
+                 | c :: cr => plural_case_body (jmsg_children f) c ;;; go cr
                  end) cases ;;;
-              jsln [CText t_default] ;;; indent_inc ;;; msg_children f dflt ;;; indent_dec ;;;
+              jsln [CText t_default] ;;; indent_inc ;;; jmsg_children f dflt ;;; indent_dec ;;;
               indent_dec ;;; jsln [CText t_rbrace]
           | _ => jret tt
           end ;;;
-          msg_children f r
+          jmsg_children f r
       end
   end.
 
 (* evalMsgParts *)
-Fixpoint eval_part (body : list node) (p : jmpart) : J unit :=
+Fixpoint jeval_part (body : list node) (p : jmpart) : J unit :=
   match p with
   | JMRaw t => write_raw_text t
   | JMPh name =>
-      ph <~ jlift (find_placeholder (msg_size body) body name) ;;
+      ph <~ jlift (jfind_placeholder (msg_size body) body name) ;;
       match ph with
       | Some phbody => w phbody
       | None => jfail je_placeholder
       end
   | JMPlural var cases =>
-      match find_plural body var with
+      match jfind_plural body var with
       | Some (NMsgPlural _ _ v _ _) =>
-          jindent ;;; txt t_plural_open ;;; w v ;;; emit [CText t_plural_close; CText t_nl] ;;;
+          jindent ;;; jtxt t_plural_open ;;; w v ;;; jemit [CText t_plural_close; CText t_nl] ;;;
           indent_inc ;;;
           (fix cases_loop (i : N) (cs : list (list jmpart)) : J unit :=
              match cs with
@@ -804,7 +804,7 @@ Fixpoint eval_part (body : list node) (p : jmpart) : J unit :=
                  (fix parts_loop (ps : list jmpart) : J unit :=
                     match ps with
                     | [] => jret tt
-                    | q :: qr => eval_part body q ;;; parts_loop qr
+                    | q :: qr => jeval_part body q ;;; parts_loop qr
                     end) c ;;;
                  jsln [CText t_break] ;;; indent_dec ;;;
                  cases_loop (i + 1) cr
@@ -813,10 +813,10 @@ Fixpoint eval_part (body : list node) (p : jmpart) : J unit :=
       | _ => jfail je_placeholder
       end
   end.
-Fixpoint eval_parts (body : list node) (ps : list jmpart) : J unit :=
+Fixpoint jeval_parts (body : list node) (ps : list jmpart) : J unit :=
   match ps with
   | [] => jret tt
-  | p :: r => eval_part body p ;;; eval_parts body r
+  | p :: r => jeval_part body p ;;; jeval_parts body r
   end.
 
 Fixpoint assoc_n {A} (k : N) (l : list (N * A)) : option A :=
@@ -826,11 +826,11 @@ Fixpoint assoc_n {A} (k : N) (l : list (N * A)) : option A :=
   end.
 Definition visit_msg (id : N) (body : list node) : J unit :=
   match o_msgs o with
-  | None => msg_children (msg_size body) body
+  | None => jmsg_children (msg_size body) body
   | Some msgs =>
       match assoc_n id msgs with
-      | None => msg_children (msg_size body) body
-      | Some parts => eval_parts body parts
+      | None => jmsg_children (msg_size body) body
+      | Some parts => jeval_parts body parts
       end
   end.
 
@@ -891,7 +891,7 @@ Definition jwalk_node (prev : option (list bool)) (n : node) : J unit :=
   | NMsgHtmlTag _ t => write_raw_text t
   | NCss _ e sfx =>
       (match e with
-       | Some x => jindent ;;; bn <~ bufname ;; emit (bn ++ [CText t_pluseq]) ;;; w x ;;; emit [CText t_css_tail; CText t_nl]
+       | Some x => jindent ;;; bn <~ bufname ;; jemit (bn ++ [CText t_pluseq]) ;;; w x ;;; jemit [CText t_css_tail; CText t_nl]
        | None => jret tt
        end) ;;;
       write_raw_text sfx
@@ -906,7 +906,7 @@ Definition jwalk_node (prev : option (list bool)) (n : node) : J unit :=
       jsln [CText t_console_log; CName (j_buf st'); CText t_close_semi] ;;;
       jmod (fun s => set_buf (removelast (j_buf s)) s)
   (* control flow *)
-  | NIf _ conds => jindent ;;; jif_conds true conds ;;; txt t_nl
+  | NIf _ conds => jindent ;;; jif_conds true conds ;;; jtxt t_nl
   | NFor _ var lst body ifempty =>
       match lst with
       | NFunc _ fname args => if bstr_eqb fname jn_range then visit_for_range var args body ifempty
@@ -914,7 +914,7 @@ Definition jwalk_node (prev : option (list bool)) (n : node) : J unit :=
       | _ => visit_foreach var lst body ifempty
       end
   | NSwitch _ v cases =>
-      jindent ;;; txt t_switch_open ;;; w v ;;; emit [CText t_for_close; CText t_nl] ;;;
+      jindent ;;; jtxt t_switch_open ;;; w v ;;; jemit [CText t_for_close; CText t_nl] ;;;
       indent_inc ;;; jswitch_cases cases ;;; indent_dec ;;; jsln [CText t_rbrace]
   | NCall _ name alldata data params => visit_call name alldata data params
   | NLetValue _ name e =>
@@ -932,28 +932,28 @@ Definition jwalk_node (prev : option (list bool)) (n : node) : J unit :=
       jsc_bind name g ;;;
       jmod (set_buf old)
   (* values *)
-  | NNull _ => txt t_null
-  | NString _ _ v => emit [CStrLit 39 v]
-  | NInt _ z => emit [CNum (dec_of_Z z)]
-  | NFloat _ f => match float_node_string f with Some s => emit [CNum s] | None => fun _ => OutOfModel end
-  | NBool _ x => txt (if x then t_true else t_false)
+  | NNull _ => jtxt t_null
+  | NString _ _ v => jemit [CStrLit 39 v]
+  | NInt _ z => jemit [CNum (dec_of_Z z)]
+  | NFloat _ f => match float_node_string f with Some s => jemit [CNum s] | None => fun _ => OutOfModel end
+  | NBool _ x => jtxt (if x then t_true else t_false)
   | NGlobal p _ v =>
       match node_of_value p v with
       | Some n' => w n'
       | None => jfail je_undefined
       end
-  | NListLit _ items => txt t_lbrack ;;; list_items true items ;;; txt t_rbrack
-  | NMapLit _ items => txt t_lbrace ;;; map_items true (sort_items items) ;;; txt t_rbrace
+  | NListLit _ items => jtxt t_lbrack ;;; list_items true items ;;; jtxt t_rbrack
+  | NMapLit _ items => jtxt t_lbrace ;;; map_items true (sort_items items) ;;; jtxt t_rbrace
   | NFunc _ name args => visit_function name args
   | NDataRef _ key acc => visit_dataref key acc
   (* operators *)
-  | NNeg _ a => txt t_neg_open ;;; w a ;;; txt t_op_close
-  | NNot _ a => txt t_not_open ;;; w a ;;; txt t_rpar
+  | NNeg _ a => jtxt t_neg_open ;;; w a ;;; jtxt t_op_close
+  | NNot _ a => jtxt t_not_open ;;; w a ;;; jtxt t_rpar
   | NBin OElvis _ a c =>
-      txt t_op_open ;;; w a ;;; txt t_elvis1 ;;; w a ;;; txt t_elvis2 ;;; w c ;;; txt t_rpar
+      jtxt t_op_open ;;; w a ;;; jtxt t_elvis1 ;;; w a ;;; jtxt t_elvis2 ;;; w c ;;; jtxt t_rpar
   | NBin op_ _ a c => jop (binop_sym op_) a c
   | NTern _ a c d =>
-      txt t_op_open ;;; w a ;;; txt t_tern1 ;;; w c ;;; txt t_colon ;;; w d ;;; txt t_rpar
+      jtxt t_op_open ;;; w a ;;; jtxt t_tern1 ;;; w c ;;; jtxt t_colon ;;; w d ;;; jtxt t_rpar
   | _ => jfail je_unknown_node
   end.
 
